@@ -1392,6 +1392,46 @@ class Idioms3(ast.NodeTransformer):
         ast.fix_missing_locations(loop)
         return loop
 
+    def visit_Assign(self, node):
+        self.generic_visit(node)
+        # D = OrderedDict((k, v) for ... in IT) -> D = OrderedDict();
+        # for ... in IT: D[k] = v   (also dict(...))
+        v = node.value
+        if len(node.targets) == 1 and isinstance(
+                node.targets[0], ast.Name) and isinstance(
+                v, ast.Call) and norm(v.func) in (
+                "OrderedDict", "collections.OrderedDict", "dict") and len(
+                v.args) == 1 and not v.keywords and isinstance(
+                v.args[0], (ast.GeneratorExp, ast.ListComp)) and len(
+                v.args[0].generators) == 1 and isinstance(
+                v.args[0].elt, ast.Tuple) and len(
+                v.args[0].elt.elts) == 2 and not any(
+                isinstance(n, ast.Name) and n.id == node.targets[0].id
+                for n in ast.walk(v.args[0])):
+            g = v.args[0].generators[0]
+            D = node.targets[0].id
+            body = [ast.Assign(targets=[ast.Subscript(
+                value=ast.Name(id=D, ctx=ast.Load()),
+                slice=v.args[0].elt.elts[0], ctx=ast.Store())],
+                value=v.args[0].elt.elts[1])]
+            if g.ifs:
+                body = [ast.If(test=g.ifs[0] if len(g.ifs) == 1 else
+                               ast.BoolOp(op=ast.And(), values=list(g.ifs)),
+                               body=body, orelse=[])]
+            tgt = clone(g.target)
+            for n_ in ast.walk(tgt):
+                if isinstance(n_, (ast.Name, ast.Tuple, ast.List)):
+                    n_.ctx = ast.Store()
+            init = ast.Assign(targets=[node.targets[0]], value=ast.Call(
+                func=v.func, args=[], keywords=[]))
+            loop = ast.For(target=tgt, iter=g.iter, body=body, orelse=[],
+                           type_comment=None)
+            for x in (init, loop):
+                ast.copy_location(x, node)
+                ast.fix_missing_locations(x)
+            return [init, loop]
+        return node
+
     def visit_AugAssign(self, node):
         self.generic_visit(node)
         # L += [f(v) for v in IT] -> for v in IT: L.append(f(v))
